@@ -28,6 +28,7 @@ pub static mut ERRS: usize = 0;
 pub static mut ERR_IS_IO: bool = false;
 pub static mut AT_END: bool = false; // environment: the input is at its end
 pub static mut IO_FAILED: bool = false; // environment: the source failed
+pub static mut BLANKS_PENDING: bool = false; // environment: spaces/tabs in front of the cursor
 
 pub fn on() -> bool {
     unsafe { ON }
@@ -47,6 +48,7 @@ pub fn reset(fuel: usize) {
         ERRS = 0;
         AT_END = kani::any();
         IO_FAILED = kani::any();
+        BLANKS_PENDING = kani::any();
     }
 }
 
@@ -61,7 +63,9 @@ fn tick() {
 
 fn consume() -> bool {
     unsafe {
-        if FUEL == 0 || AT_END {
+        // no token accepts leading blanks (T0: every token starts at its first byte); tokens eat
+        // their own trailing blanks, so after a successful token no blanks are pending
+        if FUEL == 0 || AT_END || BLANKS_PENDING {
             false
         } else if kani::any() {
             FUEL -= 1;
@@ -99,6 +103,9 @@ fn opt_unit() -> Parsed<(), ParseError> {
 
 pub fn skip_whitespace(_input: &mut LineReader) {
     tick();
+    unsafe {
+        BLANKS_PENDING = false;
+    }
 }
 
 pub fn comment(_input: &mut LineReader) -> Parsed<(), ParseError> {
@@ -129,7 +136,7 @@ pub fn eof(_input: &mut LineReader) -> Parsed<(), ParseError> {
     tick();
     unsafe {
         // contract (eof_token harness): succeeds iff at the end of a source that did not fail
-        if AT_END && !IO_FAILED {
+        if AT_END && !IO_FAILED && !BLANKS_PENDING {
             EOF_OK += 1;
             Res(Ok(()))
         } else {
@@ -141,7 +148,7 @@ pub fn eof(_input: &mut LineReader) -> Parsed<(), ParseError> {
 pub fn interactive_end_of_line(_input: &mut LineReader) -> Parsed<(), ParseError> {
     tick();
     unsafe {
-        let ok = if AT_END { !IO_FAILED } else { consume() };
+        let ok = if AT_END { !IO_FAILED && !BLANKS_PENDING } else { consume() };
         if ok {
             TERMINATOR_OK += 1;
             Res(Ok(()))
